@@ -46,6 +46,18 @@ static void setup_blocks2(Runner &r, const Tier &) {
     r.body = [dec](uint64_t i, ShardCtl &c) { static std::vector<int> s; int f, d; dec(i, s, f, d); std::vector<uint8_t> b = build(s, f); ref::Lz4Result rr = ref::lz4_decode(b.data(), b.size());
         long os = long(rr.ok ? rr.out.size() : 64) + DELTA[d]; if (os <= 0) return; eval(i, b, size_t(os), rr, c, "blocks<=2seq"); };
 }
+// long runs: literal and match lengths around one, two and three 255-extension bytes, small offsets (overlapping copies), literal-only blocks of every length
+struct LR { size_t lit1, mat1, off1, lit2, mat2, off2, fin; int dl; }; static std::vector<LR> g_lr;
+static void setup_longruns(Runner &r, const Tier &) {
+    g_lr.clear(); static const size_t LL[8] = { 0, 269, 270, 271, 524, 525, 526, 780 }, MM[8] = { 4, 273, 274, 275, 528, 529, 530, 784 }, OO[6] = { 1, 2, 7, 8, 16, 0 /* = produced */ };
+    for (size_t n = 0; n <= 800; ++n) for (int d = 0; d < 4; ++d) g_lr.push_back({ 0, 0, 0, 0, 0, 0, n, d });                                  // literals only
+    for (size_t l : LL) for (size_t m : MM) for (size_t o : OO) for (size_t f : { size_t(5), size_t(12), size_t(270) }) for (int d = 0; d < 4; ++d) { if (l == 0 && o != 0) continue; g_lr.push_back({ l, m, o, 0, 0, 0, f, d }); }
+    for (size_t l : { size_t(1), size_t(270) }) for (size_t m : MM) for (size_t o : OO) for (size_t m2 : MM) for (size_t o2 : OO) for (int d = 0; d < 2; ++d) g_lr.push_back({ l, m, o, 0, m2, o2, 12, d * 2 });   // second sequence with zero literals
+    r.ncases = g_lr.size(); r.alarm_every = 256; r.case_alarm_s = 120; r.shard_init = init;
+    auto mk = [](const LR &c) { std::vector<ref::Lz4Seq> q; size_t produced = 0; if (c.mat1) { produced += c.lit1; q.push_back({ c.lit1, c.mat1, c.off1 ? c.off1 : produced }); produced += c.mat1; } if (c.mat2) { produced += c.lit2; q.push_back({ c.lit2, c.mat2, c.off2 ? c.off2 : produced }); produced += c.mat2; } q.push_back({ c.fin, 0, 0 }); return ref::lz4_build(q); };
+    r.describe = [mk](uint64_t i) { const LR &c = g_lr[i]; std::vector<uint8_t> b = mk(c); JObj o; o.kv("family", "long_runs").kv("lit1", (unsigned long long)c.lit1).kv("match1", (unsigned long long)c.mat1).kv("off1", (unsigned long long)c.off1).kv("match2", (unsigned long long)c.mat2).kv("off2", (unsigned long long)c.off2).kv("final_literals", (unsigned long long)c.fin).kv("in_size", (unsigned long long)b.size()).kv("out_delta", DELTA[c.dl]); return o; };
+    r.body = [mk](uint64_t i, ShardCtl &c) { const LR &x = g_lr[i]; std::vector<uint8_t> b = mk(x); ref::Lz4Result rr = ref::lz4_decode(b.data(), b.size()); long os = long(rr.ok ? rr.out.size() : 64) + DELTA[x.dl]; if (os <= 0) return; eval(i, b, size_t(os), rr, c, "long_runs"); };
+}
 static const int R3[48] = { 0 };
 static void setup_blocks3(Runner &r, const Tier &) {
     // three sequences over reduced sets: lit {0,1,15,16} x match {4,19,20} x off {1,8,P,P+1}
@@ -118,6 +130,7 @@ static void setup_wrapper(Runner &r, const Tier &t) {
 int main(int argc, char **argv) {
     std::vector<Sub> subs; std::vector<std::string> cn = { "decodes", "accepted", "must_accept" };
     { Sub s; s.name = "blocks2"; s.setup = setup_blocks2; s.budget_quick = 100; s.budget_thorough = 600; s.counter_names = cn; subs.push_back(s); }
+    { Sub s; s.name = "long_runs"; s.setup = setup_longruns; s.budget_quick = 60; s.budget_thorough = 120; s.counter_names = cn; subs.push_back(s); }
     { Sub s; s.name = "blocks3"; s.setup = setup_blocks3; s.budget_quick = 60; s.budget_thorough = 600; s.counter_names = cn; subs.push_back(s); }
     { Sub s; s.name = "truncation"; s.setup = setup_trunc; s.counter_names = cn; subs.push_back(s); }
     { Sub s; s.name = "byte_deviation"; s.setup = setup_dev; s.budget_quick = 60; s.budget_thorough = 900; s.counter_names = cn; subs.push_back(s); }
